@@ -53,6 +53,12 @@ def prove_function(book, c, tier):
     return out, obs, ex
 
 
+def norm_name(n):
+    """obligation name without source line numbers (they move under harmless edits)"""
+    import re
+    return re.sub(r"@(\w+:)*L\d+", "@L", n)
+
+
 def main():
     ap = argparse.ArgumentParser()
     ap.add_argument("prop")
@@ -64,10 +70,17 @@ def main():
     ap.add_argument("--ob")
     ap.add_argument("--timeout", type=int)
     ap.add_argument("--dump")
+    ap.add_argument("--write-baseline", action="store_true")
     a = ap.parse_args()
     t0 = time.time()
     res = {"property": a.prop, "tier": a.tier, "functions": [], "lemmas": [], "errors": [], "assumptions": [], "vacuity": [],
            "out_of_subset": [], "trusted_base": list(TRUSTED_BASE), "z3_version": z3.get_version_string(), "obligation_samples": []}
+    bpath = os.path.join(ROOT, "contracts", "baseline.json")
+    try:
+        baseline_all = json.load(open(bpath))
+    except Exception:
+        baseline_all = {}
+    baseline = {} if a.write_baseline else baseline_all.get(a.prop, {})
     try:
         book = Book()
         mod = importlib.import_module("contracts." + a.prop)
@@ -120,6 +133,17 @@ def main():
                 r["witness_class"] = "model"
                 r["message"] = ("obligation %s refuted by z3: %s" % (n, r.get("solver_output", ""))) if r["status"] == "failed" else ""
                 fo["obligations"].append(r)
+            # vacuity guard against pruned paths: every obligation recorded for this function on the pinned tree (contracts/baseline.json, written by
+            # `pyvc/prove.py <ID> --write-baseline`) must still be generated; one that is not (its path ended early, the code changed shape) is
+            # UNDECIDED, never silently absent.  Obligations carrying line numbers (safety@L.., call@L..) are matched without the number.
+            base = baseline.get(fo["name"])
+            if base is not None and not a.ob:
+                have = {norm_name(o["name"]) for o in fo["obligations"]}
+                for bn in base:
+                    if bn not in have and not any(o["name"].endswith("/in-subset") for o in fo["obligations"]):
+                        fo["obligations"].append({"name": bn, "kind": "baseline", "lineno": 0, "instances": 0, "status": "undecided", "backend": "", "time_s": 0.0,
+                                                  "model": None, "solver_output": "", "prop": False, "witness_class": "model", "message": "",
+                                                  "reason": "recorded on the pinned tree but not generated on this tree (a path to it ended early or the code changed shape)"})
             # vacuity guards: a function that left the verified subset is reported as UNDECIDED (in-subset obligation), not as a checker error
             oos = bool(fo.get("out_of_subset")) or any(o["name"].endswith("/in-subset") and o["status"] != "discharged" for o in fo["obligations"])
             if not fo["obligations"] and not oos:
@@ -167,6 +191,10 @@ def main():
         res["assumptions"].extend(sorted(asm))
     except Exception as e:  # noqa
         res["errors"].append("prover crashed: %s: %s\n%s" % (type(e).__name__, e, traceback.format_exc(limit=10)))
+    if a.write_baseline and not a.only and not a.ob and not res["errors"]:
+        baseline_all[a.prop] = {fo["name"]: sorted({norm_name(o["name"]) for o in fo["obligations"]}) for fo in res["functions"]}
+        with open(bpath, "w") as f:
+            json.dump(baseline_all, f, indent=0, sort_keys=True)
     res["wall_s"] = round(time.time() - t0, 2)
     for fo in res["functions"]:
         for o in fo["obligations"]:
